@@ -497,6 +497,26 @@ theorem compile_resolve_disabled (bs : List (String × Nat)) (hinj : (bs.map (·
   subst this
   exact hnd hn'
 
+/-- the regenerated `BuiltinsMap` of builtins.go (`Gen/SymFacts.lean`) with its names as strings: the
+    table the compiler model is run with -/
+def builtinsStrMap : List (String × Nat) :=
+  Gen.SymFacts.builtinsMap.map fun p => (String.ofList (p.1.map fun b => Char.ofNat b.toNat), p.2)
+
+theorem builtinsStrMap_distinct : (builtinsStrMap.map (·.2)).Nodup := by
+  have h := fact_builtins_distinct.1
+  have e : builtinsStrMap.map (·.2) = Gen.SymFacts.builtinsMap.map (·.2) := by
+    simp [builtinsStrMap, List.map_map, Function.comp_def]
+  rw [e]; exact h
+
+/-- the instance for the real builtin table; `:makeArray` is the index the compiler model emits for
+    destructuring -/
+theorem no_getbuiltin_builtinsMap (D : List String) (file : List Stmt) (bc : Bytecode)
+    (h : compileFile builtinsStrMap D file = .ok bc) : BytecodeClean builtinsStrMap D bc :=
+  no_getbuiltin_compiled _ builtinsStrMap_distinct D file bc h
+
+example : Gen.builtinMakeArray = Gen.SymFacts.builtinMakeArray ∧ (":makeArray", Gen.builtinMakeArray) ∈ builtinsStrMap := by
+  decide +kernel
+
 def exBs : List (String × Nat) := [("len", 5), ("int", 11)]
 
 theorem getBuiltinAt_of_head {a : Array UInt8} {b : UInt8} (h : a.toList.take 2 = [7, b]) : GetBuiltinAt a b.toNat := by
